@@ -1,6 +1,7 @@
 import Vorbis.File.Model
+import Vorbis.Props.C12
 namespace Vorbis.Props.C13
-open Vorbis Vorbis.File
+open Vorbis Vorbis.File Vorbis.Props.C07
 set_option linter.unusedSimpArgs false
 
 /-- `ov_clear` runs the close callback exactly once when a data source is attached, never otherwise,
@@ -26,5 +27,15 @@ theorem C13_failed_open1_keeps_source (ph : Phys) (seekable : Bool) (s : VF) (h 
     simp only [hrc, if_false, StateT.bind, StateT.pure, modify, modifyGet, MonadStateOf.modifyGet, StateT.modifyGet] at h
     have h' : ((0 : Int) < 0) := h
     omega
+
+/-- **only `ov_clear` closes**: whatever sequence of reads, sample seeks, page seeks and raw seeks (failing ones included) is issued on
+    an opened seekable handle, the close callback has not run and the data source is still attached; `ov_clear` then closes it exactly
+    once -/
+theorem C13_only_clear_closes (ph : Phys) (s t : VF) (hk : s.seekable = true) (hr : s.ready = OPENED)
+    (h : Proofs.FileInv.Reach ph s t) :
+    t.closes = s.closes ∧ t.source = s.source ∧ (clear.run t).2.closes = (if s.source then s.closes + 1 else s.closes) := by
+  obtain ⟨_, same, _⟩ := C12.C12_consistency_is_invariant ph s t hk hr h
+  refine ⟨same.closes.symm, same.source.symm, ?_⟩
+  rw [(C13_clear_closes_once t).1, ← same.closes, ← same.source]
 
 end Vorbis.Props.C13
